@@ -54,7 +54,7 @@ fn registry() -> Vec<CheckDef> {
         id: "C07",
         level: "exploration",
         workers: 16,
-        rule: "proptest-generated directory populations (0-12 files, mtimes from 6 slots days in the past so ties abound, each file unread / atime==mtime / atime>mtime, 0-2 stray subdirectories one of them non-empty) x capacity 0..n+1 x route {raw_cache::prune, plain set, plain put, sharded set, stacked ensure on a plain writer, stacked set on a sharded writer} x fresh or existing target key, with the trigger scripted to fire; non-trivial = maintenance had to evict AND the population had an mtime tie or a read-marked file at or before the last victim; distinct by hash of the generated case",
+        rule: "proptest-generated directory populations (0-12 files, mtimes from 6 slots days in the past so ties abound, each file unread / atime==mtime / atime>mtime, 0-2 stray subdirectories one of them non-empty) x capacity 0..n+1 x route {raw_cache::prune, plain set, plain put, sharded set, stacked ensure on a plain writer, stacked set on a sharded writer} x fresh or existing target key, with the trigger scripted to fire; plus, for generated populations, a peer removing a read-marked file immediately before every call of prune after the listing (metamorphic relation against the undisturbed run); non-trivial = maintenance had to evict AND the population had an mtime tie or a read-marked file at or before the last victim (vanish variant: the injected point was reached); distinct by hash of the generated case",
         run: kvlib::c07::run,
         replay: kvlib::c07::replay,
         assumptions: &["oracle: DirExplainer (before listing as captured by the shim at opendir time / before snapshot, after snapshot) + the brute-force-validated clock-queue predicate of C08", "re-stamped files carrying identical new mtimes are accepted in any relative order", "tmpfs under /dev/shm, nanosecond timestamps"],
